@@ -198,10 +198,12 @@ def step (s : State) (ev : Ev) : State × List Out :=
     match c with
     | some _ => (s, [.done a Err.eclosed none true])      -- raw sockets have no contexts
     | none =>
-      match mode with
-      | .nb => (s, [.done a Err.eagain none true])          -- F13: nni_aio_start before looking at the queue
-      | .ms 0 => (s, [.done a Err.etimedout none true])
-      | _ =>
+      -- nni_msgq_aio_put (fixed): complete from the queue first; only an operation that has to wait is
+      -- started, and with a zero timeout nni_aio_start fails then (EAGAIN via nng_sendmsg / ETIMEDOUT)
+      let (q0, _) := aioPut s.uwq ⟨a, m, deadlineOf s.now mode⟩
+      if (mode == .nb || mode == .ms 0) && q0.putq.any (·.tag == a) then
+        (s, [.done a (if mode == .nb then Err.eagain else Err.etimedout) none true])
+      else
         let (q, es) := aioPut s.uwq ⟨a, m, deadlineOf s.now mode⟩
         let s := { s with uwq := q }
         match es with
@@ -216,10 +218,10 @@ def step (s : State) (ev : Ev) : State × List Out :=
     match c with
     | some _ => (s, [.done a Err.eclosed none false])
     | none =>
-      match mode with
-      | .nb => (s, [.done a Err.eagain none false])         -- F13
-      | .ms 0 => (s, [.done a Err.etimedout none false])
-      | _ =>
+      let (q0, _) := aioGet s.urq ⟨a, deadlineOf s.now mode⟩
+      if (mode == .nb || mode == .ms 0) && q0.getq.any (·.tag == a) then
+        (s, [.done a (if mode == .nb then Err.eagain else Err.etimedout) none false])
+      else
         let (q, es) := aioGet s.urq ⟨a, deadlineOf s.now mode⟩
         applyEvents { s with urq := q } es urqEvent
   | .cancel a => failAio s a Err.ecanceled
